@@ -68,13 +68,13 @@ def dir_hash(path, exts=('.cpp', '.hpp', '.py')):
 
 
 def prune_builds(keep):
-    """keep the build cache small: only the directories in `keep` and the two most recent others."""
+    """keep the build cache small: only the directories in `keep` and the twelve most recent others."""
     if not os.path.isdir(BUILD):
         return
     ds = [os.path.join(BUILD, d) for d in os.listdir(BUILD) if os.path.isdir(os.path.join(BUILD, d))]
     ds = [d for d in ds if os.path.basename(d) not in keep]
     ds.sort(key=os.path.getmtime, reverse=True)
-    for d in ds[2:]:
+    for d in ds[12:]:
         shutil.rmtree(d, ignore_errors=True)
 
 
@@ -397,6 +397,13 @@ TIES = {
                      theorems=['not_matches_tie', 'deref_matches_tie', 'regex_check_tie'],
                      cxx='not_matcher::matches, ptr_deref::matches, regex_check (matcher/not.hpp, deref.hpp, re.hpp)'),
     'HandleIsOptional': dict(props=['C05'], theorems=['is_optional_tie'], cxx='sequence_matcher::is_optional (sequence.hpp)'),
+    'Ring': dict(props=['C14'], gen=['RingUnlink', 'RingElemDtor', 'RingMoveAssign', 'RingPushFront', 'RingPushBack', 'RingBegin', 'RingEnd',
+                                    'RingIterIncr', 'RingIsLinked', 'RingListDtor'],
+                 theorems=['ring_unlink_tie', 'ring_elem_dtor_tie', 'ring_move_assign_tie', 'ring_push_front_tie', 'ring_push_back_tie',
+                           'ring_begin_tie', 'ring_end_tie', 'ring_iter_incr_tie', 'ring_is_linked_tie', 'ring_list_dtor_tie',
+                           'ring_list_dtor_whole'],
+                 cxx='the intrusive ring: list_elem<T>::unlink / ~list_elem / operator=(list_elem&&) / is_linked, '
+                     'list<T,Disposer>::push_front / push_back / begin / end / iterator::operator++ / ~list (mock.hpp)'),
 }
 
 
